@@ -175,3 +175,15 @@ package bitcoin
 //@   requires !isnil(pk)
 //@   ensures abs(result.point) == ite(lift(affy(abs(pk.point))) % 2 == 0, abs(pk.point), pneg(abs(pk.point))) && fresh(result.xBytes) && fresh(result.point)
 //@   fresh result
+//@
+//@ func (*SchnorrPrivateKey).Public
+//@   props C14 C18
+//@   ensures isdyn(result, SchnorrPublicKey)
+//@
+//@ func GenerateSchnorrKey
+//@   props C14 C18
+//@   split case result1 == nil
+//@   ensures result1 == nil ==> fresh(result0.dPrime) && fresh(result0.d) && fresh(result0.publicKey)
+//@   ensures result1 != nil ==> result0 == nil
+//@   modifies rdstate(osrand())
+//@   fresh result0
